@@ -72,7 +72,8 @@ def command(r):
         return "v" + r.choice(MOTIONS) + reg + r.choice(["d", "y", "~", "U", "u", "g?", "r" + r.choice(REPL), "c!<esc>"])
     if r.random() < 0.5:
         return r.choice(["h", "l", "3l", "2h", "0", "^", "$", "2$", "gg", "G", "3|", "|", "A<esc>", "I<esc>", "x", "X", "d0", "d$", "dl", "dh", "d^", "vl", "v$", "vh",
-                         "w", "b", "e", "W", "B", "E", "2w", "3b", "2e", "2W", "3E", "2B", "dw", "db", "de", "dW", "cwX<esc>", "c2wY<esc>", "cW!<esc>", "yw", "ye", "g~w", "gUe"])
+                         "w", "b", "e", "W", "B", "E", "2w", "3b", "2e", "2W", "3E", "2B", "dw", "db", "de", "dW", "cwX<esc>", "c2wY<esc>", "cW!<esc>", "yw", "ye", "g~w", "gUe",
+                         "ge", "gE", "2ge", "dge", "vge", "fa", "Fa", "ta", "To", "2fa", ";", ",", "dfa", "dTo", "diw", "daw", "diW", "yaW", "ciwX<esc>", "%", "{", "}"])
     return r.choice(MOTIONS)
 
 
@@ -365,12 +366,12 @@ def run(tier, seed, replay=None):
                 mm = re.search(r"motion=Some\(MotionCmd\((\d+), WordMotion\((Start|End), (Normal|Big), (Forward|Backward)\)\)\) flags=", t["cmd"])
                 if not mm:
                     continue
-                kind = {("Start", "Forward"): "startFwd", ("End", "Forward"): "endFwd", ("Start", "Backward"): "startBwd"}.get((mm.group(2), mm.group(4)))
+                kind = {("Start", "Forward"): "startFwd", ("End", "Forward"): "endFwd", ("Start", "Backward"): "startBwd", ("End", "Backward"): "endBwd"}.get((mm.group(2), mm.group(4)))
                 if not kind or (t["cache"] is not None and t["cache"] != t["fresh"]):
                     continue
                 gs = graphemes_of(t["buf"], t["fresh"])
                 wreqs.append({"op": "word", "cls": [cls(g) for g in gs], "cur": t["cur"]["value"], "kind": kind, "big": mm.group(3) == "Big",
-                              "count": int(mm.group(1)), "change": t["verb"] == "Change"})
+                              "count": int(mm.group(1)), "change": t["verb"] == "Change", "selecting": bool(t["sel_mode"]) and bool(t["sel_range"])})
                 wmeta.append((c, t, kind))
     for (c, t, kind), m in zip(wmeta, batch(model_driver, wreqs)):
         R.count("word_model:" + kind)
@@ -379,6 +380,58 @@ def run(tier, seed, replay=None):
             continue
         if m["mk"] != parse_mk(t["mk"]):
             R.disagreement("word motion model: %s at %d of %r: model %s impl %s" % (kind, t["cur"]["value"], t["buf"][:60], canon(m["mk"]), t["mk"]), c)
+
+    # ---- f F t T, iw aw iW aW (MotionKind), and where a motion-only command leaves the cursor
+    xreqs, xmeta = [], []
+    for i, (c, x) in enumerate(zip(cases, resp)):
+        if "steps" not in x:
+            continue
+        tr = [t for st in x["steps"][1:] for t in st["trace"]]
+        curlb = None
+        for t in tr:
+            if t["k"] == "lb":
+                curlb = t
+                if t["flags"] != 0 or (t["cache"] is not None and t["cache"] != t["fresh"]) or "\r" in t["buf"]:
+                    continue
+                gs = graphemes_of(t["buf"], t["fresh"])
+                mm = re.search(r"motion=Some\(MotionCmd\((\d+), CharSearch\((Forward|Backward), (On|Before), '(.*)'\)\)\) flags=", t["cmd"], re.S)
+                if mm:
+                    xreqs.append({"op": "charsearch", "gs": gs, "cur": t["cur"]["value"], "excl": t["cur"]["exclusive"], "fwd": mm.group(2) == "Forward",
+                                  "before": mm.group(3) == "Before", "ch": parse_char(mm.group(4)), "count": int(mm.group(1))})
+                    xmeta.append((c, t, "charsearch", None))
+                mm = re.search(r"motion=Some\(MotionCmd\((\d+), TextObj\(Word\((Normal|Big), (Inside|Around)\)\)\)\) flags=", t["cmd"])
+                if mm:
+                    xreqs.append({"op": "textobj_word", "cls": [cls(g) for g in gs], "cur": t["cur"]["value"], "big": mm.group(2) == "Big", "around": mm.group(3) == "Around"})
+                    xmeta.append((c, t, "textobj_word", None))
+            elif t["k"] == "lb_done" and curlb is not None:
+                lb, done = curlb, t
+                curlb = None
+                if lb["verb"] is not None or lb["flags"] != 0 or lb["sel_mode"] or lb["sel_range"] or "\r" in lb["buf"]:
+                    continue
+                if lb["cache"] is not None and lb["cache"] != lb["fresh"]:
+                    continue
+                mk = parse_mk(lb["mk"])
+                if mk is None or mk[0] in ("InclusiveWithTargetCol", "ExclusiveWithTargetCol"):
+                    continue
+                gs = graphemes_of(lb["buf"], lb["fresh"])
+                sc = None
+                if mk[0] == "LineOffset":
+                    if not re.search(r"(BeginningOfBuffer|EndOfBuffer)\)\) flags", lb["cmd"]):
+                        continue        # other line offsets use a remembered column the trace does not carry
+                    v = lb["cur"]["value"]
+                    ls = min(v, len(gs))
+                    while ls > 0 and gs[ls - 1] != "\n":
+                        ls -= 1
+                    sc = v - ls
+                xreqs.append({"op": "cursor_after", "gs": gs, "cur": lb["cur"]["value"], "excl": lb["cur"]["exclusive"], "mk": mk, "saved_col": sc})
+                xmeta.append((c, lb, "cursor_after", done["cur"]["value"]))
+    for (c, t, what, want), m in zip(xmeta, batch(model_driver, xreqs)):
+        R.count("l2_model:" + what)
+        if what == "cursor_after":
+            if m.get("cur") != want:
+                R.disagreement("cursor after a motion: model %s impl %s (%s from %s in %r)" % (m.get("cur"), want, t["mk"], t["cur"], t["buf"][:60]), c)
+        elif m.get("mk") != parse_mk(t["mk"]):
+            R.disagreement("%s model: at %d of %r: model %s impl %s" % (what, t["cur"]["value"], t["buf"][:60], canon(m.get("mk")), t["mk"]), c)
 
     mres = batch(model_driver, mreqs)
     for (i, k, lb, done, verb, mk), m in zip(mmeta, mres):
